@@ -32,7 +32,7 @@ META = {
         "level_text": "Seeded exploration: every rejection_sample call (in-memory / cache / file, shuffled or not, truncated or not, under seeded pool schedules) is judged from the "
         "history recorded at the RNG, pool and storage seams: rows evaluated (from the task lists / in-memory evaluation point), the uniform vector drawn on the sampler's own generator, "
         "the row-at-a-time likelihood L*, and a pure-Python reference acceptance loop; the returned nonlinear columns must be exactly the accepted library rows, in evaluation order, truncated at the right end.",
-        "level_note": "Input dimension (libraries, data) is only as dense as the configuration swarm samples it (weaker than dedicated input generation). ll comes from the system's own kernel (L*). "
+        "level_note": "Input dimension (libraries, data) is only as dense as the configuration swarm samples it (weaker than dedicated input generation): libraries of 1..300 rows, plus (thorough tier, ~1 run in 2000) a scale probe of 2^20+k rows whose reference is evaluated in 4096-row chunks. ll comes from the system's own kernel (L*). "
         "Positions where exp(ll-max) is within 1e-12 of u are not judged. NaN likelihoods are outside the quantifier and not judged.",
         "design_ref": "DESIGN.md section 4 / C02",
         "rule": _SCHED_RULE + "C02 judges each rejection_sample call against the reference acceptance model built from the recorded uniform vector.",
@@ -62,8 +62,9 @@ META = {
         "level": "exploration",
         "technique": "deterministic simulation: twin replays under different schedules/pool kinds and poisoned global RNG state; stream-uniqueness invariant at the pool seam; mid-run clone twin",
         "level_text": "Each call sequence runs as twins with equal seeds and batching but different schedules (transport, chunking, completion order, worker assignment, serial vs simulated multi-process pool) "
-        "and different poisoned numpy/python global random state: outputs must be bit-identical, global state digests unchanged after every op, every child generator crossing the pool seam unique, no draw block repeated, and a clone of the generator taken mid-run must reproduce the remaining ops.",
-        "level_note": "Real multiprocess scheduling is modelled by SimPool; the fresh-interpreter/hash-seed dimension is covered by the CLI's determinism self-test (same seeds re-run under another PYTHONHASHSEED).",
+        "and different poisoned numpy/python global random state: outputs must be bit-identical, global state digests unchanged after every op, every child generator crossing the pool seam unique, no draw block repeated, and a clone of the generator taken mid-run must reproduce the remaining ops. Also: the same Generator object rewound to a saved state must reproduce prior.sample / rejection_sample(data, <int>); no two returned rows may carry identical linear parameters (output-based form of stream independence); "
+        "a task must never carry the sampler's own generator; and a sample of seeds is re-executed in fresh interpreters whose per-op OUTPUT digests must equal the original's (cross-process form of 'equal seed and inputs give bit-identical outputs': reaches process-global state shared between priors/objects; confirmed through an explicit prelude replay before it is reported).",
+        "level_note": "Real multiprocess scheduling is modelled by SimPool. Workers are not dealt seeds by prior for C10 (all eight prior configurations meet in every worker process). A cross-process output difference is reported as a violation only after sim.replay reproduced it twice from an explicit replay file (program alone in a fresh interpreter vs after the prelude of earlier seeds).",
         "design_ref": "DESIGN.md section 4 / C10",
         "rule": _SCHED_RULE + "C10 runs every program three times (twin A, twin B under another schedule and global poison, clone twin C).",
         "assumptions": ["prior.sample ops are expensive (pytensor compile) and drawn for ~1 run in 10"],
